@@ -130,8 +130,7 @@ def direct_checks(ctx, N, W):
 
 def run(ctx):
     rng = np.random.default_rng(ctx.seed)
-    ctx.proof_layer(allowed_axioms=["ClassicalDedekindReals.sig_forall_dec", "ClassicalDedekindReals.sig_not_dec",
-                                    "FunctionalExtensionality.functional_extensionality_dep"], coq_deps=["Corr/RunTriIndex"])
+    ctx.proof_layer(allowed_axioms=core.R_AX, coq_deps=["Corr/RunTriIndex"])
     if ctx.thorough:
         ns = list(range(0, 151))
         ctx.notes["exhaustive"] = True
